@@ -15,6 +15,7 @@
           ["combine_values_lifted",c] ["combine_globally",c,lifted,fanout|null] ["distinct"]
           ["distinct_per_key"] ["top_k_per_key",k] ["groups_to_list"] ["join",kind,rsteps,rdata]
    src:   ["vec","u"|"kv"|"kg",[values]] | ["sharded","u"|"kv",[[values],...],total_len]
+          | ["range","u"|"kv",n]  (rows 0..n-1; kv: key = i mod 7)
    Moduli must be positive, counts non-negative (anything else is malformed: the harness answers
    ["invalid"] for such an input and never runs it). *)
 From Coq Require Import List ZArith Bool String.
@@ -238,10 +239,24 @@ Definition dec_shape (j : J) : option tag :=
   | _ => None
   end.
 
+(* compact source ["range", shape, n] = SrcVec of the rows 0..n-1: "u": Int i; "kv": (i mod 7, i).
+   Built with a Z counter (linear in n). *)
+Fixpoint zrange (fuel : nat) (i : Z) : list Z :=
+  match fuel with O => [] | S f => i :: zrange f (i + 1) end.
+Definition range_rows (t : tag) (n : nat) : list val :=
+  if Nat.eqb t TKV then map (fun i => VPair (VInt (i mod 7)) (VInt i)) (zrange n 0)
+  else map VInt (zrange n 0).
+
 Definition dec_src (j : J) : option src :=
   match j with
   | JL [JS t; s; d] =>
-      if tag_is t "vec" then obind2 (dec_shape s) (dec_vals d) SrcVec else None
+      if tag_is t "vec" then obind2 (dec_shape s) (dec_vals d) SrcVec
+      else if tag_is t "range" then
+        match dec_shape s, dec_nat d with
+        | Some sh, Some n => if Nat.eqb sh TKG then None else Some (SrcVec sh (range_rows sh n))
+        | _, _ => None
+        end
+      else None
   | JL [JS t; s; JL shards; n] =>
       if tag_is t "sharded" then
         match dec_shape s, omap dec_vals shards, dec_nat n with
